@@ -36,7 +36,8 @@ type pkey struct {
 	scalars []namedInt
 	fresh   map[int]*paillier.Ciphertext // Encrypt(m_i, r_j) through the public key (each is itself a depth-1 state)
 
-	cache map[string]*pstate
+	cache  map[string]*pstate
+	cached map[string]bool
 	// vacuity statistics (the BFS of one key is sequential)
 	opCount  map[string]int
 	seenM    map[string]struct{}
@@ -88,7 +89,7 @@ func newPKey(e primePair, depth int) *pkey {
 		panic(engine.HarnessError{Msg: "NewSecretKey refused the group: " + err.Error()})
 	}
 	k := &pkey{name: fmt.Sprintf("%s/%d", e.flavour, e.bits), flavour: e.flavour, bits: e.bits, depth: depth, ref: rk, grp: grp, sk: sk, pk: sk.Public(),
-		ctLen: (rk.N2.BitLen() + 7) / 8, fresh: map[int]*paillier.Ciphertext{}, cache: map[string]*pstate{},
+		ctLen: (rk.N2.BitLen() + 7) / 8, fresh: map[int]*paillier.Ciphertext{}, cache: map[string]*pstate{}, cached: map[string]bool{},
 		opCount: map[string]int{}, seenM: map[string]struct{}{}, seenR: map[string]struct{}{}, special: map[string]int{}}
 	N := rk.N
 	h := half(N)
@@ -435,7 +436,11 @@ func (k *pkey) build(hist []int) (*pstate, bool) {
 	}
 	ns, ok := k.step(par, hist[len(hist)-1])
 	if ok && len(hist) < k.depth {
-		k.cache[string(histKey(hist))] = ns
+		// only the first history that reaches a state is ever extended by the search (same key as Canon)
+		if c := k.canon(ns, hist); c == "" || !k.cached[c] {
+			k.cached[c] = true
+			k.cache[string(histKey(hist))] = ns
+		}
 	}
 	return ns, ok
 }
@@ -567,7 +572,7 @@ func (k *pkey) invariant(x *engine.X, s *pstate, hist []int) {
 }
 
 func (k *pkey) runBFS(budget time.Duration) {
-	if f := os.Getenv("VERIF_C16_ONLY"); f != "" && !strings.Contains("paillier/bfs/"+k.name, f) { // DEV
+	if f := os.Getenv("VERIF_C16_ONLY"); f != "" && !strings.Contains("paillier/bfs/"+k.name, f) {
 		return
 	}
 	sec := engine.BFS(engine.BFSOpts[*pstate]{
@@ -583,7 +588,7 @@ func (k *pkey) runBFS(budget time.Duration) {
 	sec.Note("key %s: N has %d bits; depth %d = 1 Encrypt + %d homomorphic steps; %d operations per state (each through PublicKey and SecretKey)", k.name, k.bits, k.depth, k.depth-1, numPOps-0)
 	sec.Note("transitions checked per operation family: %v; states fully opened and re-encrypted: %d", k.opCount, k.openedOK)
 	sec.Note("distinct model plaintexts %d, distinct model nonces %d; boundary hits %v", len(k.seenM), len(k.seenR), k.special)
-	k.cache = nil
+	k.cache, k.cached = nil, nil
 }
 
 // ---------------------------------------------------------------------------------------------------------------
@@ -790,16 +795,22 @@ func paillierRefusalCases() []refusalCase {
 func paillierKeys() []*pkey {
 	var ks []*pkey
 	for _, e := range primeTable {
+		// quick: 256- and 512-bit keys, depth 3. thorough: 256 -> depth 5, 512 -> 4, 1024 -> 4, 2048 -> 3
 		depth := 0
 		switch e.bits {
-		case 256, 512:
+		case 256:
+			depth = 3
+			if engine.Thorough() {
+				depth = 5
+			}
+		case 512:
 			depth = 3
 			if engine.Thorough() {
 				depth = 4
 			}
 		case 1024:
 			if engine.Thorough() {
-				depth = 3
+				depth = 4
 			}
 		case 2048:
 			if engine.Thorough() {
@@ -832,7 +843,7 @@ func runPaillier() []func() {
 
 	var fs []func()
 	for _, k := range keys {
-		fs = append(fs, func() { k.runBFS(engine.Budget(150*time.Second, 30*time.Minute)) })
+		fs = append(fs, func() { k.runBFS(engine.Budget(6*time.Minute, 35*time.Minute)) })
 	}
 	return fs
 }
